@@ -591,6 +591,7 @@ func (db *MultiBucketBackend) PutObject(
 	if objectDir != "." {
 		if err := db.bucketFs.MkdirAll(objectDir, db.dirMode); err != nil {
 			db.metaStore.discardStagedMeta(metaPath)
+			removeNewEmptyDirs(db.bucketFs, bucketName, path.Dir(objectName))
 			return result, err
 		}
 	}
